@@ -137,6 +137,11 @@ pub fn scenarios() -> Vec<(&'static str, Vec<Act>)> {
         ("block-path-outage", vec![Mine(true), RpcDownAfter(0), Poll, Probe, NodeUp, Poll, Probe]),
         ("no-outage", vec![ApiStart, ApiRun, Mine(true), Poll, Probe]),
         ("multi-block-poll-with-failed-download", vec![Mine(true), Mine(false), Mine(false), FailBlock(1), Poll, Probe, NodeUp, Poll, Probe]),
+        // a download fails in the middle of a multi-block poll (the part that got through is kept and the tip recorded),
+        // then the node goes away altogether (noticed by the next poll); when it is back, the poll that delivers the
+        // rest of the blocks finds the very tip it has already recorded — it is the one that must end the outage
+        ("outage-after-an-interrupted-multi-block-poll", vec![Mine(true), Mine(false), Mine(false), FailBlock(1), Poll, Probe, NodeDown, Poll, Probe, NodeUp, Poll, Probe]),
+        ("outage-after-an-interrupted-multi-block-poll-longer", vec![Mine(false), Mine(true), Mine(false), Mine(false), FailBlock(2), Poll, NodeDown, Poll, Poll, Probe, NodeUp, Poll, Probe, Poll, Probe]),
         ("outage-noticed-by-poll", vec![NodeDown, Poll, Probe, NodeUp, Poll, Probe, Mine(true), Poll, Probe]),
         // the node flaps: the poll succeeds (flag restored, waiters woken) but the RPC interface is gone again when the
         // carrier retries; the carrier must go on waiting, not give the penalty up
